@@ -408,7 +408,11 @@ def g_binary(b, fn=None):
             if x is None:
                 return None
         r = rng.random()
-        if r < 0.4:
+        if b.special_scalars and r < 0.12:
+            # a 0-d ARRAY exponent (strongly typed, unlike a Python scalar) at and next to the values the operator's fast paths test for
+            y, yr = enc_arr(np.array(rng.choice([1, 2, 2, 3, 0.5]), dtype=rng.choice(["float64", "float32", "float32", "int64"]))), []
+            force_sp = rng.choice(["op", "op", "mg", "np"])
+        elif r < 0.4:
             y, yr = rng.choice([1, 2, 3, -1, 0.5, 2.5, -1.5]), []   # incl. the **1 / **2 special routes
         elif r < 0.6:
             # a (trainable) TENSOR exponent whose value happens to be exactly 1 or 2: must not take the scalar special routes
